@@ -105,3 +105,15 @@ func init() {
 		Rule: "one case = (small graph with cycles/self loops/dead ends, a mark/jump program of one of six documented shapes with a counter bounding the depth, optional limit after the loop, capacity divisor, scheduling policy with starve-one aimed at a seeded goroutine + schedule seed, clock advance cadence); non-trivial = the reference result is non-empty; distinct = distinct (graph, program, divisor, decision-sequence hash)",
 		Assumptions: []string{"loop bodies contain traveler-local, order-preserving steps only (as the property states)", "emit=false is generated only with no condition, where documentation and code cannot differ", "livelock is reported only under the fair policy after 1000 progress-free rounds with the clock advancing"}}
 }
+
+func init() {
+	props["C01"] = &propCfg{Level: "exploration", QuickRuns: 16000, QuickS: 50, ThoroughRuns: 2000000, ThoroughS: 1500,
+		Rule: "two families: (enum) consecutive run seeds walk the bounded space of all statement lists START.s1.s2.s3 over 4 starts x 25 concrete steps (65100 programs; well-typed ones are compared with refql, ill-typed ones must be rejected by Compile before any goroutine starts), each on a fresh random graph; (random) typed random programs up to length 10 incl. unwind on purpose-built data; every case runs under a seeded policy/capacity divisor. non-trivial = the reference result is non-empty (or the program is ill-typed); distinct = distinct (graph, program, divisor, decision-sequence hash)",
+		Assumptions: []string{"refql encodes the documented semantics (DESIGN.md App. A); constructs the documentation leaves open are not generated or only weakly judged", "simkv implements the kvi contract"}}
+}
+
+func init() {
+	props["C02"] = &propCfg{Level: "exploration", QuickRuns: 8000, QuickS: 50, ThoroughRuns: 1000000, ThoroughS: 1500,
+		Rule: "one case = (random graph, optionally with vertices relabelled/deleted after the load so that the label index holds stale entries; a typed random program biased to leading hasLabel/hasId/has(_label|_gid) filters and to filters/renders/selects that read earlier steps or marks; backend kvgraph or the hint-honouring decorator; mode literal-vs-optimized, count-vs-rows or spelling-vs-spelling; policy, capacity divisor, schedule seed); non-trivial = the expected side returned rows; distinct = distinct (graph, program, backend, mode, decision-sequence hash)",
+		Assumptions: []string{"the literal plan (one StatementProcessor per statement, every step loading, no optimizer) is the meaning of the statements", "the hint-honouring decorator follows the contract of grids/graph.go (id+label kept, Data empty, Loaded=false)"}}
+}
